@@ -151,16 +151,19 @@ func c09Run(c *fw.Ctx) {
 			em := []string{"bob@corp.test", "mallory@other.test", "bob@evilcorp.test", "notbob@corp.test", "bob@corp.te\u017ft", "bob@corp.test@evil.test",
 				// the listed domain with its dot replaced by another character
 				"bob@corp-test", "bob@corpxtest"}[x.Choose("email", 8)]
+			// the instants are expressed in UTC, or in the zone of a process running nine hours east of it (what
+			// time.Now() hands to the code that stamps deadlines there): the same instants either way
+			zone := []*time.Location{time.UTC, time.FixedZone("UTC+9", 9*3600)}[x.Choose("instants-expressed-in", 2)]
 			pick := func(b int) time.Time {
 				if b == 0 {
-					return future
+					return future.In(zone)
 				}
-				return past
+				return past.In(zone)
 			}
 			sess = &sessions.SessionState{ProviderSlug: e.Slug, AccessToken: "idp-access-token", RefreshToken: rt, Email: em, User: strings.Split(em, "@")[0],
 				LifetimeDeadline: pick(l), RefreshDeadline: pick(r), ValidDeadline: future}
 			hdr.Set("Cookie", e.CookieName+"="+e.Seal(sess))
-			desc = fmt.Sprintf("genuine{lifetime=%s token_deadline=%s refresh_token=%v email=%s}", fp(l), fp(r), rt != "", em)
+			desc = fmt.Sprintf("genuine{lifetime=%s token_deadline=%s refresh_token=%v email=%s zone=%s}", fp(l), fp(r), rt != "", em, zone)
 		case 1:
 			desc = "absent"
 		case 2:
